@@ -34,7 +34,9 @@ REGISTRY = dict(
     text=("Proof (unbounded): with the decision rule regenerated from save_util.py (an attribute is stored as plain JSON only if json.loads(json.dumps(.)) gives it back, values and "
           "types) json_to_data(data_to_json(d)) = d for ALL attribute value trees (tuples, nested dicts with non-string keys, float/int/str subclass scalars, NaN, and anything "
           "json.dumps rejects travel as pickled blobs); plain JSON is used exactly for the values JSON holds unchanged; save/load restores every non-excluded attribute, state dict "
-          "and torch variable for all exclude/include sets; set_parameters(get_parameters()) changes nothing. Refuted witnesses keep the pre-fix behaviour (F7) as regression inputs. "
+          "and torch variable for all exclude/include sets; set_parameters(get_parameters()) changes nothing. Refuted witnesses keep the pre-fix behaviour (F7) as regression inputs; "
+          "F15 (tuple-key dict made save() raise) and F18 (str-subclass keys restored as plain str) were found by this check / its review and repaired in /repo (regression inputs). "
+          "Known findings reproduced from fixed corpus inputs: F16 dict-attribute-with-reserved-serialized-key-not-restored, F19 net-arch-list-of-dict-rewritten-on-load. "
           "Tie: fragment translator + correspondence on random value trees + six algorithms saved and loaded through str / pathlib / BytesIO."),
     note=("Trusted: Coq 8.16.1 kernel (vm_compute, no native_compute), translate/py2coq.py + specs/saveload.py, harness/c09.py, Python/numpy/torch/cloudpickle/zipfile. "
           "Modelled, not verified: cloudpickle, th.save/th.load, zipfile (identity on opaque blobs; exercised by the whole-model runs), _setup_model (a frame condition in the "
@@ -1066,7 +1068,7 @@ def main():
         "floats are tags in the model (k/8 in the runs); strings are short ASCII words; dictionaries never mix keys that Python identifies (1, True, 1.0)",
         "schedules and other callables are compared by their values at progress 1, 0.5, 0; objects with a __dict__ attribute by attribute; spaces with ==",
         "attributes in the effective exclusion set ((exclude + _excluded_save_params()) - include, plus the top-level names of state dicts / torch variables) are not compared",
-        "HER replay buffers are not saved on their own in the quick tier (the buffer needs its env; covered through the model only)",
+        "replay buffers saved on their own (ReplayBuffer, optimize_memory_usage, DictReplayBuffer, HerReplayBuffer with and without copy_info_dict) are compared attribute by attribute except the documented `env`",
     ]
     if cov is not None:
         chk.notes["branch_coverage"] = cov.report()
